@@ -212,6 +212,21 @@ RX_EACH = re.compile(r"\{\{#each\s+(\w+)\}\}(.*?)\{\{/each\}\}", re.DOTALL)
 RX_INC = re.compile(r"\{\{>(\w+)\}\}")
 
 
+SH_L, SH_R = "\ue000", "\ue001"
+
+
+def shield(t):
+    return t.replace("{", SH_L).replace("}", SH_R)
+
+
+def unshield(t):
+    return t.replace(SH_L, "{").replace(SH_R, "}")
+
+
+def has_sentinel(t):
+    return SH_L in t or SH_R in t
+
+
 class MirrorError(Exception):
     def __init__(self, kind, name=""):
         self.kind, self.name = kind, name
@@ -240,11 +255,13 @@ def _cat(parts):
     return TS("".join(p.t for p in parts), [x for p in parts for x in p.o])
 
 
-def mirror_render(templates, main_text, pctx, strict=False, max_depth=60):
+def mirror_render(templates, main_text, pctx, strict=False, max_depth=60, shielding=True):
     """templates: [(name, text)]; pctx: Python context.
     -> dict(text, origins, warnings [(kind, name)], error None|(kind, name), pairs set((origin, pass)))"""
     T = dict(templates)
     pairs = set()
+    shield_ = shield if shielding else (lambda t: t)       # shielding=False: the pipeline before 1548caf,
+    unshield_ = unshield if shielding else (lambda t: t)   # used only to name the channel of a regression
 
     def cover(ts, a, b, p):
         for o in set(ts.o[a:b]):
@@ -278,8 +295,11 @@ def mirror_render(templates, main_text, pctx, strict=False, max_depth=60):
         if depth > max_depth:
             raise MirrorError("depth")
         warnings = []
+        outside = RX_EACH.sub("", text)
         for m in RX_SIMPLE.finditer(text):
             if m.group(1) not in pctx:
+                if "{{" + m.group(1) + "}}" not in outside:
+                    continue
                 if strict:
                     raise MirrorError("value", m.group(1))
                 warnings.append((0, m.group(1)))
@@ -303,7 +323,7 @@ def mirror_render(templates, main_text, pctx, strict=False, max_depth=60):
                     lc.update(item)
                 part = ts.sl(m.start(2), m.end(2))
                 for k, v in lc.items():
-                    part = replace_all(part, "{{" + k + "}}", TS.of(str(v), O_LOOPITEM), P_LOOPKEYS)
+                    part = replace_all(part, "{{" + k + "}}", TS.of(shield_(str(v)), O_LOOPITEM), P_LOOPKEYS)
                 parts.append(part)
             return _cat(parts)
         ts = sub(RX_EACH, ts, P_EACH, r_each)
@@ -311,8 +331,9 @@ def mirror_render(templates, main_text, pctx, strict=False, max_depth=60):
         def r_inc(m, ts):
             n = m.group(1)
             if n in T:
-                sub_ts, _w = translate(T[n], depth + 1)
-                return TS(sub_ts.t, [O_TEMPLATE if o == O_TEMPLATE else O_INCLUDE for o in sub_ts.o])
+                sub_ts, w = translate(T[n], depth + 1)
+                warnings.extend(w)
+                return TS(shield_(sub_ts.t), [O_TEMPLATE if o == O_TEMPLATE else O_INCLUDE for o in sub_ts.o])
             return TS("[Unknown template: " + n + "]")
         ts = sub(RX_INC, ts, P_INCLUDE, r_inc)
 
@@ -321,11 +342,11 @@ def mirror_render(templates, main_text, pctx, strict=False, max_depth=60):
             if x in pctx:
                 if f in FILTERS:
                     try:
-                        return TS.of(apply_filter(f, pctx[x]), O_FILTERED)
+                        return TS.of(shield_(apply_filter(f, pctx[x])), O_FILTERED)
                     except RefTypeError:
                         raise MirrorError("type")
                 warnings.append((1, f))
-                return TS.of(str(pctx[x]), O_FILTERED)
+                return TS.of(shield_(str(pctx[x])), O_FILTERED)
             return ts.sl(m.start(), m.end())
         ts = sub(RX_FILT, ts, P_FILTERED, r_filt)
 
@@ -336,20 +357,22 @@ def mirror_render(templates, main_text, pctx, strict=False, max_depth=60):
         for g0, x, d in found:
             if d.t not in FILTERS:
                 if x in pctx:
-                    ts = replace_all(ts, g0, TS.of(str(pctx[x]), O_DEFAULT), P_DEFAULT)
+                    ts = replace_all(ts, g0, TS.of(shield_(str(pctx[x])), O_DEFAULT), P_DEFAULT)
                 else:
-                    ts = replace_all(ts, g0, TS(d.t, [O_DEFAULT] * len(d.t)), P_DEFAULT)
+                    ts = replace_all(ts, g0, TS.of(shield_(d.t), O_DEFAULT), P_DEFAULT)
 
-        ts = sub(RX_OPT, ts, P_OPTIONAL, lambda m, ts: TS.of(str(pctx.get(m.group(1), "")), O_OPTIONAL))
+        ts = sub(RX_OPT, ts, P_OPTIONAL, lambda m, ts: TS.of(shield_(str(pctx.get(m.group(1), ""))), O_OPTIONAL))
 
         def r_simple(m, ts):
             x = m.group(1)
             if x in pctx:
-                return TS.of(str(pctx[x]), O_PLAIN)
+                return TS.of(shield_(str(pctx[x])), O_PLAIN)
+            if strict:
+                raise MirrorError("value", x)
             warnings.append((2, x))
             return ts.sl(m.start(), m.end())
         ts = sub(RX_SIMPLE, ts, P_SIMPLE, r_simple)
-        return ts, warnings
+        return TS(unshield_(ts.t), ts.o), warnings
 
     try:
         ts, w = translate(main_text, 0)
@@ -393,6 +416,8 @@ class Gen:
 
     def string(self):
         r = self.r
+        if r.random() < 0.015:
+            return r.choice(["a\ue000b", "\ue001", "\ue000\ue000y\ue001\ue001", "x\ue001\ue000"])
         if self.adv and r.random() < 0.6:
             s = r.choice(ADV)
             k = r.random()
@@ -496,11 +521,11 @@ def is_word(s):
 def leaf_wf(l):
     k = l[0]
     if k == "T":
-        return "{" not in l[1] and "}" not in l[1]
+        return "{" not in l[1] and "}" not in l[1] and not has_sentinel(l[1])
     if k in ("V", "O", "G"):
         return is_word(l[1])
     if k == "P":
-        return is_word(l[1]) and l[2] != "" and "{" not in l[2] and "}" not in l[2]
+        return is_word(l[1]) and l[2] != "" and "{" not in l[2] and "}" not in l[2] and not has_sentinel(l[2])
     return k == "D"
 
 
@@ -538,6 +563,20 @@ def value_free(v):
 
 def ctx_free(case):
     return all(value_free(v) for _k, v in case["ctx"])
+
+
+def value_clean(v):
+    if "s" in v:
+        return not has_sentinel(v["s"])
+    if "l" in v:
+        return all(not has_sentinel(it) if isinstance(it, str)
+                   else all(not has_sentinel(k) and not has_sentinel(x) for k, x in it["d"]) for it in v["l"])
+    return True
+
+
+def ctx_clean(case):
+    """no value contains the shielding sentinels U+E000 / U+E001"""
+    return all(value_clean(v) for _k, v in case["ctx"])
 
 
 WARN_KINDS = [("Missing required variable: ", 0), ("Unknown filter: ", 1), ("Unbound variable: ", 2)]
@@ -582,35 +621,15 @@ VARIABLE_PASSES = (P_FILTERED, P_DEFAULT, P_OPTIONAL, P_SIMPLE)
 
 
 def pair_signature(o, p):
-    """The channel name of an (origin, pass) pair.  Only the channels recorded in
-    KNOWN_FINDINGS.json are tolerated by the driver; every other name is a VIOLATION."""
-    if o == O_OPTIONAL and p == P_SIMPLE:
-        return "C12/opacity/optional->simple"
-    if o == O_FILTERED and p in (P_DEFAULT, P_OPTIONAL, P_SIMPLE):
-        return "C12/opacity/filtered->later-pass"
-    if o == O_DEFAULT and p in (P_DEFAULT, P_OPTIONAL, P_SIMPLE):
-        return "C12/opacity/default->later-pass"
-    if o == O_LOOPITEM and p == P_LOOPKEYS:
-        return "C12/opacity/loop-item->loop-keys"
-    if o == O_LOOPITEM and p == P_INCLUDE:
-        return "C12/opacity/loop-item->include"
-    if o == O_LOOPITEM and p in VARIABLE_PASSES:
-        return "C12/opacity/loop-item->variables"
-    if o == O_INCLUDE and p in VARIABLE_PASSES:
-        return "C12/opacity/include->variables"
+    """Since 1548caf no channel is tolerated: every (origin, pass) pair is a violation."""
     return "C12/opacity/%s->%s" % (ORIGIN_NAMES[o], PASS_NAMES[p])
-
-
-CHANNELS = ["C12/opacity/optional->simple", "C12/opacity/filtered->later-pass", "C12/opacity/default->later-pass",
-            "C12/opacity/loop-item->loop-keys", "C12/opacity/loop-item->include", "C12/opacity/loop-item->variables",
-            "C12/opacity/include->variables"]
 
 
 def W(main, ctx, templates=(), strict=False, phase="adv"):
     return {"templates": [list(t) for t in templates], "main": main, "ctx": ctx, "strict": strict, "phase": phase}
 
 
-# canonical witness of every recorded finding (each produces exactly one channel)
+# the witnesses of the eight findings repaired by 1548caf / 29cb17a, kept as regression cases
 WITNESSES = [
     ("C12/opacity/optional->simple",
      W([["O", "x"]], [["x", {"s": "{{y}}"}], ["y", {"s": "LEAK"}]])),
@@ -705,6 +724,18 @@ def loop_bound_names(case):
     return out
 
 
+def plain_vars_outside_loops(case):
+    """plain variables written outside {{#each}} bodies in the main template or a registered one"""
+    out = set()
+    for ns in [case["main"]] + [t for _n, t in case["templates"]]:
+        for n in ns:
+            ls = [n] if n[0] not in ("I", "E") else ((n[3] + (n[4] or [])) if n[0] == "I" else [])
+            for l in ls:
+                if l[0] == "V":
+                    out.add(l[1])
+    return out
+
+
 def syntactic_plain_vars(case):
     out = set()
     for ns in [case["main"]] + [t for _n, t in case["templates"]]:
@@ -730,26 +761,36 @@ class C12(Check):
             "(values, items, dict values and defaults containing every template construct, stray delimiters and "
             "unterminated openers; ~12% stray-brace text); 12% strict mode; ASCII only; filters upper/lower/trim/length "
             "(title/json/repr never generated). non-trivial = at least one construct was expanded; distinct by case content")
-    LEVEL_TEXT = ("Coq theorems about a hand-written executable model of Ribosome.translate (seven scanners equivalent to the "
-                  "seven regexes, applied in the code's order, leaks included) and a single-pass reference renderer over the "
-                  "template AST: for every well-formed template (text, plain/optional/defaulted/filtered variables, if/else, each "
-                  "with loop variables and dict keys, includes of any depth), every set of well-formed registered templates and "
-                  "every delimiter-free context, the multi-pass model renders exactly the single left-to-right expansion whenever "
-                  "that expansion is defined (c12_render_eq, proved by scanner-over-printer lemmas per pass and induction on the "
-                  "include depth; no size bounds); missing plain variables are warned about / rejected in strict mode; unknown "
-                  "includes give the marker. The opacity conjunct is refuted by 9 machine-checked witnesses (recorded findings). "
-                  "The impl model and its taint version are tied to the code by evaluating them in Coq on every generated "
-                  "template/context the implementation rendered (delimiter-free and adversarial); the Coq reference renderer is "
-                  "tied to an independent Python reference renderer the same way.")
+    LEVEL_TEXT = ("Coq theorems about a hand-written executable model of Ribosome.translate as it is now (seven scanners "
+                  "equivalent to the seven regexes, applied in the code's order, _shield at every substitution site, _unshield at "
+                  "the end, the strict-mode rules of 29cb17a, nested include warnings) and a single-pass reference renderer over "
+                  "the template AST, with no bound on template size, number of templates, include depth or context: "
+                  "c12_render_eq (for every well-formed template and every context whose strings are free of U+E000/U+E001 and "
+                  "whose dict keys are identifiers - braces and all template syntax allowed in values - the multi-pass model "
+                  "renders exactly the single left-to-right expansion with values verbatim), c12_opacity (in the taint model no "
+                  "scanner match of any pass ever covers a code point that did not come from the template: the (origin, pass) log "
+                  "is empty, any outcome), c12_strict_loop_vars / c12_strict_unbound_is_error, c12_missing_plain_var_warned, "
+                  "c12_unknown_include_marker. The pre-repair pipeline is kept behind a legacy switch with ten machine-checked "
+                  "refutations. Model, taint model and Coq reference renderer are tied to the code / to an independent Python "
+                  "reference renderer by evaluating them in Coq on every generated template/context the implementation rendered "
+                  "(delimiter-free, adversarial, sentinel-bearing).")
     LEVEL_NOTE = ("Trusts: Coq kernel+VM; the correspondence harness; ASCII character classes; Python str()/repr() of "
-                  "str/int/bool/list/dict as modelled. The opacity conjunct is REFUTED for the unchanged code (recorded "
-                  "findings); every other (origin, pass) channel is a violation.")
-    TECHNIQUE = "Coq proof (scanner-over-printer lemmas per pass) + vm_compute correspondence + taint-classified escape differential"
-    TRUSTED = ["modelled, not verified: \\w, \\s, str.upper/lower/strip for ASCII only (generator is ASCII); str()/repr() of "
-               "str/int/bool/list/dict for ASCII; filters title/json/repr are never generated (model answers EUnmodelled)",
+                  "str/int/bool/list/dict as modelled; plain model = erased taint model is checked per case, not proved. "
+                  "Side conditions (explicit in the theorems): no U+E000/U+E001 in template text, defaults or values; dict-item "
+                  "keys are identifiers.")
+    TECHNIQUE = ("Coq proof (scanner-over-printer lemmas per pass, induction on include depth; taint pipeline transported through "
+                 "erasure) + vm_compute correspondence + taint-classified escape differential")
+    TRUSTED = ["modelled, not verified: \\w, \\s, str.upper/lower/strip for ASCII only (generator is ASCII plus the two "
+               "sentinels); str()/repr() of str/int/bool/list/dict for ASCII and private-use code points; filters "
+               "title/json/repr are never generated (model answers EUnmodelled)",
                "the Python taint mirror (harness) only classifies; it is compared with the Coq taint model on every case",
                "placeholder differential: '{' '}' in context values are replaced by U+27E6/U+27E7 (printable, caseless, not \\w/\\s)"]
-    ASSUMPTIONS = ["templates and values are ASCII", "context variable names are identifiers other than template/self/sequence",
+    ASSUMPTIONS = ["template text, defaults and every string of the context contain neither U+E000 nor U+E001 (the renderer's "
+                   "shielding sentinels: a value 'a\\ue000b' renders as 'a{b'); sentinel-bearing values are generated and "
+                   "compared with the model, but excluded from the property",
+                   "dict-item keys are identifiers (a key containing braces can make the loop-body str.replace span an earlier value)",
+                   "templates and values are otherwise ASCII",
+                   "context variable names are identifiers other than template/self/sequence",
                    "included templates form an acyclic graph (a cycle is RecursionError in the code, OutOfFuel in the model)"]
 
     # -- generation --------------------------------------------------------
@@ -795,7 +836,7 @@ class C12(Check):
         return base + super().corpus_cases()
 
     def known_witnesses(self):
-        return list(WITNESSES)
+        return []          # every former finding is repaired; the witnesses live on in corpus_cases()
 
     # -- implementation ----------------------------------------------------
     def run_impl(self, case):
@@ -815,8 +856,13 @@ class C12(Check):
             k, nm = real["error"]
             obs = [{"value": [1] + cps(nm), "type": [2], "depth": [3]}.get(k, [9]), [], []]
         obs.append(sorted({o * 16 + p for o, p in mir["pairs"]}))
-        if case_wf(case) and ctx_free(case) and not case["strict"]:
-            obs.append([1] + cps(ref["text"]) if ref["error"] is None else ([2] if ref["error"] == "type" else [3]))
+        if case_wf(case) and ctx_clean(case):
+            if ref["error"] is None:
+                obs.append([1] + cps(ref["text"]))
+            elif ref["error"] == "value":
+                obs.append([4] + cps(ref["name"]))
+            else:
+                obs.append([2] if ref["error"] == "type" else [3])
         else:
             obs.append([0])
         obs.append([1])
@@ -832,11 +878,14 @@ class C12(Check):
         if trace.get("harness_error") or trace.get("hang"):
             return Violation("C12/raises", f"translate did not return normally: {trace}")
         real, mir, ref, escr = trace["real"], trace["mirror"], trace["ref"], trace["esc"]
-        wf, free = case_wf(case), ctx_free(case)
+        wf, free, clean = case_wf(case), ctx_free(case), ctx_clean(case)
         if real["error"] and real["error"][0] in ("other",):
             return Violation("C12/raises", f"translate raised {real['error'][1]}")
+        if not clean:
+            return None      # sentinel-bearing values are outside the property's side condition (observation only)
 
-        # (3) opacity: escape differential over the bound values, classified by taint
+        # (3) opacity: escape differential over the bound values; EVERY failure is a violation,
+        # named by the (origin, pass) pair of the taint model
         if escr is not None:
             differs = (escr["error"] != real["error"] or
                        (real["error"] is None and (unesc(escr["text"]) != real["text"] or escr["warnings"] != real["warnings"])))
@@ -845,56 +894,63 @@ class C12(Check):
                 detail = (f"rendering {pr(case['main'])!r} gives {real['text']!r} (error {real['error']}) but with the braces "
                           f"of the bound values neutralised {unesc(escr['text']) if escr['text'] is not None else None!r} "
                           f"(error {escr['error']}): a bound value was re-interpreted as template syntax")
-                if not faithful:
-                    return Violation("C12/opacity/unclassified", detail + "; the taint model does not reproduce this rendering")
-                # a value can also change the outcome by PREVENTING a match that covers it (e.g. a value
-                # '}}' ending a [^}]+ default early): such a match shows up in the neutralised run
                 mesc = trace.get("mirror_esc") or {"pairs": set()}
                 sigs = sorted({pair_signature(o, p) for o, p in set(mir["pairs"]) | set(mesc["pairs"])})
+                if not faithful:
+                    # the model of the current code does not explain it: name the channel with the
+                    # unshielded pipeline if THAT reproduces the rendering (a shielding regression)
+                    tpl_text = [(n, pr(t)) for n, t in case["templates"]]
+                    old = mirror_render(tpl_text, pr(case["main"]), py_ctx(case["ctx"]), case["strict"], shielding=False)
+                    if old["error"] == real["error"] and old["text"] == real["text"] and old["pairs"]:
+                        osigs = sorted({pair_signature(o, p) for o, p in old["pairs"]})
+                        return Violation(osigs[0], detail + f"; reproduced by the unshielded pipeline, channels {osigs}")
+                    return Violation("C12/opacity/unclassified", detail + f"; the taint model does not reproduce this rendering (its channels: {sigs})")
                 if not sigs:
                     return Violation("C12/opacity/unexplained", detail + "; no scanner match of the model covers a value")
-                new = [s for s in sigs if s not in CHANNELS]
-                return Violation((new or sigs)[0], detail + f"; channels {sigs}")
+                return Violation(sigs[0], detail + f"; channels {sigs}")
+        if not wf:
+            return None      # the reference reads the AST: only meaningful for templates of the grammar
 
-        # strict mode: error iff a rendered plain variable is missing (the reference reads the AST,
-        # so this is only meaningful for templates of the grammar)
-        if case["strict"] and not wf:
-            return None
+        # strict mode: loop variables are accepted; a plain variable that is rendered and unbound is an error
         if case["strict"]:
+            bound_names = {k for k, _ in case["ctx"]}
             if ref["error"] == "value":
                 if not (real["error"] and real["error"][0] == "value"):
                     return Violation("C12/strict-missed", f"strict mode rendered although {ref['name']!r} is missing")
                 return None
             if real["error"] and real["error"][0] == "value":
                 nm = real["error"][1]
-                bound_names = {k for k, _ in case["ctx"]}
-                if nm in loop_bound_names(case) and nm not in bound_names:
+                if nm in loop_bound_names(case) and nm not in bound_names and nm not in plain_vars_outside_loops(case):
                     return Violation("C12/strict-rejects-loop-vars",
                                      f"strict mode raises 'Missing required variable: {nm}' for a loop variable of {pr(case['main'])!r}")
-                if free and not (nm in syntactic_plain_vars(case) and nm not in bound_names):
+                if not (nm in plain_vars_outside_loops(case) and nm not in bound_names):
                     return Violation("C12/strict-spurious-error", f"strict mode raised for {nm!r}, which is not a missing plain variable")
-                return None
+                return None      # a variable of a branch that is not rendered: over-reporting, tolerated
         # filter type errors
-        if wf and free and (ref["error"] == "type") != bool(real["error"] and real["error"][0] == "type"):
+        if (ref["error"] == "type") != bool(real["error"] and real["error"][0] == "type"):
             return Violation("C12/filter-error", f"reference error {ref['error']} vs implementation error {real['error']}")
         if real["error"] or ref["error"]:
             return None
 
-        # (1) the rendering is the single left-to-right expansion
-        if wf and free and real["text"] != ref["text"]:
+        # (1) the rendering is the single left-to-right expansion, values verbatim (any sentinel-free context)
+        if real["text"] != ref["text"]:
             return Violation("C12/render-differs", f"{pr(case['main'])!r} renders {real['text']!r}, the reference expansion is {ref['text']!r}")
-        if wf and not free and escr is not None and escr["error"] is None and unesc(escr["text"]) != ref["text"]:
-            return Violation("C12/render-differs", f"{pr(case['main'])!r} with neutralised values renders {unesc(escr['text'])!r}, "
-                                                   f"the reference expansion is {ref['text']!r}")
-        # (2) every missing plain variable is reported
-        if wf and free:
-            warned = {nm for _k, nm in real["warnings"]}
-            for nm in ref["missing"]:
-                if nm not in warned:
-                    return Violation("C12/missing-not-warned", f"plain variable {nm!r} is unbound and was rendered but no warning names it")
+        # (2) every missing plain variable that was rendered is reported
+        warned = {nm for _k, nm in real["warnings"]}
+        for nm in ref["missing"]:
+            if nm not in warned:
+                return Violation("C12/missing-not-warned", f"plain variable {nm!r} is unbound and was rendered but no warning names it")
         return None
 
     def nontrivial(self, case, obs, trace):
+        if not ctx_clean(case):
+            real, ref = trace.get("real") or {}, trace.get("ref") or {}
+            ob = self.extra_cov.setdefault("sentinel_observation", {"cases": 0, "output_differs_from_reference": 0, "example": None})
+            ob["cases"] += 1
+            if real.get("text") is not None and ref.get("text") is not None and real["text"] != ref["text"]:
+                ob["output_differs_from_reference"] += 1
+                if ob["example"] is None:
+                    ob["example"] = {"template": pr(case["main"]), "rendered": real["text"], "reference": ref["text"]}
         return any(n[0] != "T" for n in case["main"])
 
     def classify(self, case, obs, trace):
